@@ -78,3 +78,13 @@ func (s *SQLiteStore) VerifCounters() (int, int, error) {
 	err := s.db.QueryRowContext(context.Background(), `SELECT queued, leased FROM queue_counters WHERE id = 1;`).Scan(&queued, &leased)
 	return queued, leased, err
 }
+
+// VerifSetNow replaces the store's clock (a store built by run()'s wiring has no clock option). Call before use.
+func (s *MemoryStore) VerifSetNow(now func() time.Time) {
+	s.mu.Lock()
+	defer s.mu.Unlock()
+	s.nowFn = now
+}
+
+// VerifSetNow replaces the store's clock (a store built by run()'s wiring has no clock option). Call before use.
+func (s *SQLiteStore) VerifSetNow(now func() time.Time) { s.nowFn = now }
